@@ -416,7 +416,7 @@ def main(argv):
     for line, model, msg in firsts['SPECFAIL'][:3]:
         path = write_replay(prop, 'input', {'property': prop, 'kind': 'failing-input', 'case': line, 'model_observation': model,
                                             'spec_checker': msg, 'seed': seed, 'tier': tier,
-                                            'explanation': 'a spec checker proved sound in Coq rejects the implementation\'s observation on this input'})
+                                            'explanation': 'the property\'s statement, evaluated on the implementation\'s observation by the extracted checker, fails on this input'})
         violations.append((path, True, msg))
     if not firsts['SPECFAIL']:
         for line, model, msg in firsts['DIFF'][:3]:
